@@ -114,6 +114,55 @@ UNITS = [Unit('copier', 'C04', C, extracts=X_ALL, replay=REPLAY,
               preconditions=['n <= 2^40 pixels, row widths <= 2^40'],
               assumed=['iterator_from_2d += k follows the advance contract of C03', 'detail::copy_n on raw iterators copies k consecutive pixels (std::copy / memmove)',
                        'iterator_from_2d::x() is the raw x-iterator at the current position, valid up to the end of its row'])]
+# ---------------------------------------------------------------------------------------------------------------------------------------
+# detail::fill_aux for planar iterators: one std::fill per plane, the planes paired with the fill value's channels BY COLOUR
+X_FA = [X('fill_aux_planar', AL, r'void fill_aux\(It first, It last, P const& p, std::true_type\)\s*\{', count=1,
+          rules=[('R11.static_for_each', r'static_for_each\(first, last, p, std_fill_t\(\)\);', 'STATIC_FOR_EACH_FILL(first, last, p);', True)])]
+FA_C = r'''
+/* ghost: planes of the planar iterator range by SEMANTIC index (0 = first colour of the colour space ...), the fill value's channels by MEMORY index;
+   g_sem2mem[k] = memory index of the k-th colour in the value's layout (probe: measured on the real pixel type) */
+typedef struct { int dummy; } planar_range_t; typedef struct { int ch[5]; } value_t;
+int g_plane_filled_with[5]; int g_k;
+static const int g_sem2mem[5] = { VAL_SEM0, VAL_SEM1, VAL_SEM2, VAL_SEM3, VAL_SEM4 };
+/* static_for_each(a, b, c, op): op(semantic_at_c<K>(a), semantic_at_c<K>(b), semantic_at_c<K>(c)) for every K (color_base_algorithm.hpp; assumed, see C05) */
+static void STATIC_FOR_EACH_FILL(const planar_range_t* first, const planar_range_t* last, const value_t* p) { for (int k = 0; k < NCH; k++) g_plane_filled_with[k] = p->ch[g_sem2mem[k]]; }
+void fill_aux_planar(const planar_range_t* first, const planar_range_t* last, const value_t* p)
+__CPROVER_requires(__CPROVER_is_fresh(first, sizeof(*first)) && __CPROVER_is_fresh(last, sizeof(*last)) && __CPROVER_is_fresh(p, sizeof(*p)) && 0 <= g_k && g_k < NCH)
+__CPROVER_assigns(__CPROVER_object_whole(g_plane_filled_with))
+__CPROVER_ensures(g_plane_filled_with[g_k] == p->ch[g_sem2mem[g_k]])       /* the plane of colour k is filled with the value's channel of colour k (as the per-pixel assignment view(x,y) = value does) */
+@@fill_aux_planar@@
+#ifndef VERIF_NATIVE
+void h_fill_aux_planar(void){ planar_range_t* a; planar_range_t* b; value_t* v; int k; g_k = k; fill_aux_planar(a, b, v); __CPROVER_assert(0, "VACUITY"); }
+#endif
+'''
+PROBE_FA = r'''
+  P_VAL("NCH", (int)num_channels<VALP>::value);
+  { VALP p; char n[32]; for (int k = 0; k < 5; k++) { std::snprintf(n, sizeof n, "VAL_SEM%d", k); long m = 0;
+      if (k < (int)num_channels<VALP>::value) { m = k == 0 ? (const char*)&semantic_at_c<0>(p) - (const char*)&p : k == 1 ? (const char*)&semantic_at_c<1>(p) - (const char*)&p : (const char*)&semantic_at_c<2>(p) - (const char*)&p; m /= (long)sizeof(channel_type<VALP>::type); }
+      P_VAL(n, m); } }
+'''
+REPLAY_FA = r'''
+#include <boost/gil.hpp>
+#include <vector>
+#include "vreplay.hpp"
+using namespace boost::gil;
+#include "inst.hpp"
+int main(int argc, char** argv){ vr::parse(argc, argv);
+  // fill_pixels of planar rgb views (contiguous, padded rows, sub-view) with a value of the instantiation's pixel type: equals the per-pixel assignment
+  for (int W = 1; W <= 4; W++) for (int H = 1; H <= 3; H++) for (int pad = 0; pad <= 2; pad += 2) { long row = W + pad; std::vector<unsigned char> a(3 * row * H, 0xEE), b(3 * row * H, 0xEE);
+    auto va = planar_rgb_view(W, H, a.data(), a.data() + row * H, a.data() + 2 * row * H, row); auto vb = planar_rgb_view(W, H, b.data(), b.data() + row * H, b.data() + 2 * row * H, row);
+    VALP val; get_color(val, red_t()) = 10; get_color(val, green_t()) = 20; get_color(val, blue_t()) = 30;
+    fill_pixels(va, val); for (int y = 0; y < H; y++) for (int x = 0; x < W; x++) vb(x, y) = val;
+    if (a != b) REPRODUCED("fill_pixels(planar rgb8 %dx%d, row padding %d, value (r,g,b) = (10,20,30)) differs from the per-pixel assignment: first red byte %d, first blue byte %d", W, H, pad, (int)a[0], (int)a[2 * row * H]); }
+  NOT_REPRODUCED("fill_pixels of planar views equals the per-pixel assignment"); }
+'''
+
+for _n, _t in (('rgb8', 'rgb8_pixel_t'), ('bgr8', 'bgr8_pixel_t')):
+    UNITS.append(Unit('fill_aux_planar.' + _n, 'C04', FA_C, extracts=X_FA, replay=REPLAY_FA, probe=PROBE_FA, probe_includes=['boost/gil.hpp'],
+                      insts=[(_n, 'quick', {'T_VALP': _t})], checks=[Check('fill_aux_planar', 'h_fill_aux_planar', enforce='fill_aux_planar', object_bits=10, flags=['--unwind', '6'], timeout=300)],
+                      assumed=['static_for_each pairs the three colour bases by semantic index (color_base_algorithm.hpp; C05 covers the constructors, not the recursive algorithms)',
+                               'std_fill_t()(first_k, last_k, value_k) is std::fill over plane k']))
+
 META = dict(not_covered=['fill_pixels / std::fill overload, equal_pixels (equal_n_fn, memcmp lengths), for_each_pixel, generate_pixels, transform_pixels, copy_and_convert_pixels: not built',
                          'the per-pixel assignment itself (C05) and the 1-D traversability dispatch (is_1d_traversable is under contract in C03)'])
 
